@@ -164,7 +164,10 @@ class Check(BaseCheck):
             ref = np.asarray(m.smooth_vfunc(v, n))
         if not np.array_equal(m2.t, t0) or np.max(np.abs(m2.v - ref)) > tol * max(1, np.abs(v).max()):
             return core.Violation("smooth_", "smooth_(n) is not v := smooth_vfunc(v, n) with untouched connectivity", case)
-        for fn, arg in ((m.map_tfunc_to_vfunc, np.ones(len(t) + 1)), (m.map_vfunc_to_tfunc, np.ones(len(v) + 1)), (m.smooth_vfunc, np.ones(len(v) + 1))):
+        for fn, arg in ((m.map_tfunc_to_vfunc, np.ones(len(t) + 1)), (m.map_vfunc_to_tfunc, np.ones(len(v) + 1)), (m.smooth_vfunc, np.ones(len(v) + 1)),
+                        (m.map_tfunc_to_vfunc, np.ones(2 * len(t))), (m.map_tfunc_to_vfunc, np.ones((3 * len(t), 2))), (m.map_tfunc_to_vfunc, np.ones(len(t) - 1)),
+                        (m.map_vfunc_to_tfunc, np.ones(2 * len(v))), (m.map_vfunc_to_tfunc, np.ones((2 * len(v), 3))), (m.smooth_vfunc, np.ones(2 * len(v))),
+                        (m.smooth_vfunc, np.ones((len(v) - 1, 2)))):
             r = core.call(fn, arg)
             if not (r[0] == "err" and r[1] == "ValueError"):
                 return core.Violation("wrong-length", "%s accepts input of the wrong length: %s" % (fn.__name__, r[:2]), case)
